@@ -205,11 +205,14 @@ def _is_wrapped(fn, e, be='big_endian'):
     return False
 
 
-def check_endian(ck: Checker, rule, modules, public, exempt):
+def check_endian(ck: Checker, rule, modules, public, exempt, names=None, but=None):
+    """`names` / `but`: restrict the rule to (all but) the given function names."""
     repo = ck.repo
     n = 0
     for m, q, fn in gen_functions(repo, modules):
         if 'big_endian' not in param_names(fn):
+            continue
+        if (names is not None and q not in names) or (but is not None and q in but):
             continue
         if (m.name, q) not in public:
             continue
